@@ -370,6 +370,10 @@ def run_strace(rec, lab, al, sc, effects):
     arena.cleanup()
 
 
+INVALID_DOCS = [b'{"k1": "line one\nline two", "k2": [1, 2, 3]}', b'{"k1": "tab\there"}', b'{"k1": "ctl\x01"}', b'{"k1": "x",}',
+                b"{'k1': 'x'}", b'{"k1": "x"} trailing', b'{"k1": "x"}{"k2": 1}', b'\xef\xbb\xbf{"k1": "x"}']
+
+
 def run_corruption(rec, lab, al, args, rng):
     """Second clause: a corrupt sidecar blanks only that Sid's data."""
     from lib import faults
@@ -387,6 +391,8 @@ def run_corruption(rec, lab, al, args, rng):
     content = open(side, "rb").read()
     cases = [("truncate", j) for j in range(0, len(content), args["corrupt_step"])]
     cases += [("emptied", 0), ("directory", 0), ("garbage", 0), ("unreadable_EACCES", 0), ("unreadable_EIO", 0), ("nul_bytes", 0)]
+    # complete documents that are NOT valid JSON (RFC 8259): a raw control character inside a string, a trailing comma, single quotes
+    cases += [("invalid_doc", i) for i in range(len(INVALID_DOCS))]
     side_p = None
     if "P" in al:
         pp, _f = lab.trees.path_of(lab.default_config, al["P"])
@@ -410,6 +416,9 @@ def run_corruption(rec, lab, al, args, rng):
             os.mkdir(side)
         elif kind == "garbage":
             open(side, "wb").write(b"\xff\xfe not json {{{")
+        elif kind == "invalid_doc":
+            open(side, "wb").write(INVALID_DOCS[j])
+            rec.count("invalid_but_complete_documents")
         elif kind == "two_sidecars_garbage":
             open(side, "wb").write(b"\xff\xfe not json {{{")
             open(side_p, "wb").write(b"{ not json either")
